@@ -3,9 +3,26 @@ import PepperProofs.LoadInvSys
 /-!
 # C16 — saved compiler state reloads to the same system and matches its `.pil`  (PARTIAL)
 
-PARTIAL by nature: that `pickle.load(pickle.dump(x))` in a fresh process yields an object graph with the
-same tables, sharing and complement links as `x` is behaviour of the Python runtime, which no Lean model
-expresses.  What IS proved, over the model of the saved state (`Comp.St` tables, the `Inst`/`SysSt` tree of
+PARTIAL, but `pickle` is now INSIDE the model: `PepperModel/Pickle.lean` has a heap of cells with references, the
+unpickler `run` (mirror of `pickle._Unpickler`: stack, MARKs, memo, in-place `APPENDS` / `SETITEMS` / `BUILD`), the abstract
+pickler `dump` (mirror of `_pickle.c: save` at protocol 4: memo discipline, recursive-tuple re-check, the C batching) and
+the canonical form `canon` of a rooted heap; the theorems are in `PepperProps/C16Pickle.lean` (re-checked and audited with
+this module).  On every run the harness (section `[pickle model]` of `harness/props/c16.py`, `harness/pickleio.py`) feeds the
+REAL bytes of every `out.save` to `run`, walks the in-memory system and the system reloaded in a fresh process by `id()`
+exactly as the pickler sees them, canonises all three with the Lean `canon`, and compares `dump` of the walked heap with
+the real opcode list.
+  PROVED there: equal canonical forms ⇒ isomorphic reachable graphs incl. sharing and cycles (`canon_iso`); the frame /
+  identity / freshness lemmas of the unpickler; the round trip `canon (run (dump h r)) = canon h r` for atoms and strings in
+  any heap, and — `roundtrip_of_check` — the full isomorphism conclusion for every heap on which the evaluated check says
+  `true` (evaluated by the driver on every in-memory heap of every run, and by the kernel on a two-cycle of instances).
+  NOT PROVED: the round trip for ALL heaps (`RoundtripStatement`: containers, sharing, cycles — the simulation invariant
+  between pickler memo and partially built cells); the converse of `canon_iso`.
+  NOT MODELLED (validated by the three-way comparison, or trusted): the C implementation `_pickle` versus the model (tied
+  only by the per-run comparison of opcodes and graphs); `find_class` in the fresh process (classes found by module path);
+  what `cls.__new__` / a reduce callable really returns; `sys.intern` of attribute names; `__setstate__` (none of the
+  pickled classes has one — reported if that changes); the 8 bytes of `BINFLOAT` are opaque; the link between a decoded heap
+  and the `Comp.St` / `Inst` tree of this file (`snapshot`) is still made by the harness (`harness/snapshot.py`), not in Lean.
+What IS proved in THIS file, over the model of the saved state (`Comp.St` tables, the `Inst`/`SysSt` tree of
 `PepperModel/Comp.lean`, `Sys.lean`), the emitted statements (`PepperModel/Emit.lean`) and `finish`
 (`PepperModel/Finish.lean`):
 
